@@ -245,9 +245,10 @@ PROPS = {
     ),
     "C15": dict(
         level="model_checking",
-        level_text="Kani contract harnesses on the ClientHello trait (TLS and DTLS impls), constructors and getters: every accessor returns the structure's own field (pointer identity for slices), rand_time() == be32(first four random bytes) and rand_bytes() == the rest for every random of length 4..36 (incl. 32), new()/get_version() store and return their arguments. Full domain in every integer; bounded in list length (<= 2 ciphers). cipher_suites()/get_ciphers()/get_cipher() are compositions of the accessors with from_id, which C12 proves over all ids.",
-        level_note="Bounded in cipher-list length; registry mapping of cipher_suites() rests on fd_from_id (C12).",
-        technique="contract harnesses on the real code, Kani/CBMC",
+        level_text="Unbounded (Verus, unit accessors, on the real method bodies): the six required ClientHello trait methods of both impls (TLS and DTLS), new() of TlsClientHelloContents / TlsServerHelloContents and get_version() return the structure's own fields / store their arguments unchanged for every value, in particular every list length. Kani contract harnesses on the ClientHello trait (TLS and DTLS impls), constructors and getters: every accessor returns the structure's own field (pointer identity for slices), rand_time() == be32(first four random bytes) and rand_bytes() == the rest for every random of length 4..36 (incl. 32), new()/get_version() store and return their arguments. Full domain in every integer; bounded in list length (<= 2 ciphers). cipher_suites()/get_ciphers()/get_cipher() are compositions of the accessors with from_id, which C12 proves over all ids.",
+        level_note="The default methods rand_time / rand_bytes / cipher_suites and get_ciphers / get_cipher use iterator adapters and Option combinators outside Verus's subset: decided by Kani only (full domain in the random bytes, bounded in cipher-list length). R8' (trait impl -> inherent impl, bodies verbatim) is applied to the two trait impls. Bounded in cipher-list length for the Kani part; registry mapping of cipher_suites() rests on fd_from_id (C12).",
+        technique="contract-based deductive verification: Verus on the extracted accessor bodies (unbounded) + Kani contract harnesses on the compiled code",
+        verus=["accessors"],
         kani=[dict(quick=["leaf_ch_accessors_tls", "leaf_ch_accessors_dtls", "fd_server_hello_ctor", "mod_ch_cipher_suites", "fd_route_get_ciphersuite", "fd_from_id"], timeout=900)],
         explanation="see level_text",
     ),
